@@ -33,9 +33,9 @@ def histories(rng, L, tier):
     if tier == 'thorough':
         out += [[]] + [[o] for o in pool]
         out += [[a, b] for a in pool for b in pool]          # every order of <= 2 calls: exhaustive
-        for n, k in ((3, 250), (4, 250)):
+        for n, k in ((3, 150), (4, 150)):
             out += [[rng.choice(pool) for _ in range(n)] for _ in range(k)]
-        out += [mlib.rand_history(rng, L) for _ in range(300)]
+        out += [mlib.rand_history(rng, L) for _ in range(200)]
     else:
         out += [[]]
         out += [[rng.choice(pool)] for _ in range(4)]
@@ -438,7 +438,7 @@ def run(args) -> int:
     from concurrent.futures import ThreadPoolExecutor
     results = {}
     for order in orders:
-        step = 3 if args.tier == 'quick' else 5
+        step = 3 if args.tier == 'quick' else 8
         idx = list(range(len(cases))) if order == 0 else [i for i, c in enumerate(cases)
                                                           if by_name[c['logic']]['hooks']['finish'] == 'cpl' or i % step == 0]
         sub = [cases[i] for i in idx]
